@@ -20,7 +20,7 @@ RULE = ("Hypothesis-generated trees (depth <=4, <=14 nodes) of batch_call_watche
         "reference batching model giving per window the watchers that must run and their events (silence while open, once "
         "per watcher at the outermost exit, final value, precedence, discard, trigger, restore). Non-trivial = a context "
         "nested in another, or a trigger/discard inside an open batch, or >=2 sets of one parameter inside one batch, or a "
-        "multi-parameter watcher receiving >=2 names; distinct = case hash.")
+        "multi-parameter watcher receiving >=2 names; distinct = case hash. Two side scenarios ride along in a third of the cases each: update() contexts over linked parameters, and discard_events used inside a callback of a round in which an earlier (queued) watcher already queued events.")
 ASSUMPTIONS = [
     "'qualifying' is judged per set against the value it replaced, per watcher; extra events are tolerated for watched "
     "names that had some set inside the batch (the statement allows both readings)",
@@ -84,7 +84,20 @@ def _case(draw):
                                                      unique_by=lambda k: k[0]))],
             "bump_inside": draw(st.booleans()),
         }
-    return {"fam": fam, "watchers": ws, "prog": prog, "links": links}
+    cbd = None
+    if draw(st.integers(0, 2)) == 0:
+        # a third small scenario: discard_events used *inside a callback*, in a dispatch round in which a queued watcher
+        # that ran earlier has left events in the queue ("... and nothing queued before it")
+        cbd = {
+            "first_queued": draw(st.sampled_from([True, True, False])),
+            "first_sets": draw(st.lists(st.integers(1, 9), min_size=1, max_size=2)),       # values given to b by the first watcher
+            "discard_sets": draw(st.lists(st.integers(1, 9), min_size=0, max_size=2)),     # values given to c inside the discard block
+            "second_queued": draw(st.booleans()),
+            "same_precedence": draw(st.booleans()),
+            "outer": draw(st.sampled_from([None, None, "batch", "update"])),
+            "rounds": draw(st.integers(1, 2)),
+        }
+    return {"fam": fam, "watchers": ws, "prog": prog, "links": links, "cb_discard": cbd}
 
 
 def strategy(tier):
@@ -415,6 +428,8 @@ def execute(case):
                                        f"events={p._events!r} trigger={p._TRIGGER}")
     if case.get("links"):
         _links_scenario(res, case["links"])
+    if case.get("cb_discard"):
+        _cb_discard_scenario(res, case["cb_discard"])
     for l in model.labels:
         res.label(l)
     res.nontrivial = bool(model.labels & {"nested_context", "trigger_inside_batch", "discard_inside_batch",
@@ -431,6 +446,60 @@ def _region_trigger_in_batch(case, v):
 
 
 REGIONS = {"trigger_inside_open_batch": _region_trigger_in_batch}
+
+
+def _cb_discard_scenario(res, c):
+    """Round: `o.a = k` reaches watcher F (sets b; when queued its events stay in the queue until the round ends) and then
+    watcher D, which opens discard_events(o) and sets c inside it.  The events for b were queued before the discard block:
+    the watcher of b must still be called (once, final value); the events for c were raised inside it: never delivered."""
+    import param
+    O = type("O", (param.Parameterized,), {"a": param.Parameter(0), "b": param.Parameter(0), "c": param.Parameter(0)})
+    o = O()
+    log = []
+
+    rnd = {"k": 0, "n": 0}
+
+    def first(*evs):
+        for v in c["first_sets"]:
+            rnd["n"] += 1
+            o.b = ("b", v, rnd["k"], rnd["n"])          # a fresh, unequal value every time
+
+    def second(*evs):
+        with discard_events(o):
+            for v in c["discard_sets"]:
+                rnd["n"] += 1
+                o.c = ("c", v, rnd["k"], rnd["n"])
+
+    o.param.watch(first, "a", queued=c["first_queued"], precedence=0)
+    o.param.watch(second, "a", queued=c["second_queued"], precedence=0 if c["same_precedence"] else 1)
+    o.param.watch(lambda *evs: log.append(("b", [e.new for e in evs])), "b")
+    o.param.watch(lambda *evs: log.append(("c", [e.new for e in evs])), "c")
+    res.label("cb_discard:first_queued" if c["first_queued"] else "cb_discard:first_immediate")
+    for k in range(1, c["rounds"] + 1):
+        del log[:]
+        rnd["k"] = k
+        if c["outer"] == "batch":
+            with batch_call_watchers(o):
+                o.a = k
+                if log:
+                    res.fail("C04.ran_while_context_open", f"cb_discard {c!r}: deliveries inside the open batch: {log!r}")
+        elif c["outer"] == "update":
+            o.param.update(a=k)
+        else:
+            o.a = k
+        bcalls = [e for e in log if e[0] == "b"]
+        ccalls = [e for e in log if e[0] == "c"]
+        if ccalls:
+            res.fail("C04.discarded_event_delivered", f"cb_discard {c!r}, round {k}: the watcher of c was called for assignments made "
+                                                      f"inside discard_events: {ccalls!r}")
+        if not bcalls:
+            res.fail("C04.queued_event_dropped_by_discard", f"cb_discard {c!r}, round {k}: b was assigned by the first watcher before "
+                                                            f"the discard block of the second one, but the watcher of b was never called")
+        elif bcalls[-1][1][-1] is not o.b:
+            res.fail("C04.final_value", f"cb_discard {c!r}, round {k}: last delivery for b carries {bcalls[-1][1]!r}, b is {o.b!r}")
+        p = o.param
+        if p._BATCH_WATCH or p._events or p._state_watchers:
+            res.fail("C04.state_left", f"cb_discard {c!r}, round {k}: dispatch state not clean: events={p._events!r}")
 
 
 def _links_scenario(res, lk):
